@@ -1,0 +1,22 @@
+//go:build verif
+
+package isaacdatabase
+
+// Verification hook H4 (build tag "verif" only): exported passthroughs to the
+// unexported maintenance steps of TempPool which otherwise only run from the
+// periodic clean daemon.
+
+// VerifCleanProposals runs one proposal cleanup step.
+func (db *TempPool) VerifCleanProposals() (int, error) {
+	return db.cleanProposals()
+}
+
+// VerifCleanBallots runs one ballot cleanup step.
+func (db *TempPool) VerifCleanBallots() (int, error) {
+	return db.cleanBallots()
+}
+
+// VerifCleanDepths returns the configured cleanup depths (proposals, ballots).
+func (db *TempPool) VerifCleanDepths() (proposal, ballot int) {
+	return db.cleanRemovedProposalDeep, db.cleanRemovedBallotDeep
+}
